@@ -128,6 +128,7 @@ def check_cfg(ctx, fx, cfg):
                                     fresh = True
                         ctx.require(ok and awaited and fresh, "R12.2", "waiting-send-flushes:%s@%s" % (cf["def"], cfg), "the bounded waiting path must await SinkExt::send (feed + flush) on a fresh clone of the bounded Sender: %s awaited=%s fresh_clone=%s" % ([et["callee"] for _x, et in enq], awaited, fresh), fn=co["def"], site=co["loc"], detail={"fresh_clone": fresh})
     ctx.floor("R12.2", "bounded waiting closures (%s)" % cfg, n_wait_total[0], 1)
+    CAP_ENTRIES = {"actor::builder::BaseActorBuilder::<A, P>::bounded": 1, "actor::builder::BaseActorBuilder::<A, P>::bounded_on_stream": 1, "environment::Environment::<A>::bounded": 0}
     for caller, idx in (("actor::builder::BaseActorBuilder::<A, P>::bounded", 1), ("actor::builder::BaseActorBuilder::<A, P>::bounded_on_stream", 1), ("environment::Environment::<A>::bounded", 0)):
         f = fx.fn(caller)
         if f is None:
@@ -137,6 +138,13 @@ def check_cfg(ctx, fx, cfg):
             continue
         b = ctx.body(fx, f)
         calls = [t for _, t in b.normal_calls() if t.get("callee") == "channel::Channel::<A>::bounded"]
+        if not calls:
+            # ... or hands it, unmodified, to another of these capacity-taking entry points (`self.bounded(capacity)`)
+            calls = [t for _, t in b.normal_calls() if (t.get("resolved") or t.get("callee")) in CAP_ENTRIES and (t.get("resolved") or t.get("callee")) != caller]
+            idx2 = CAP_ENTRIES.get((calls[0].get("resolved") or calls[0].get("callee"))) if calls else None
+            ok = len(calls) == 1 and idx2 is not None and all(r.kind == "arg" and not r.proj for r in roots(b, calls[0]["args"][idx2]))
+            ctx.require(ok, "R12.2", "capacity:%s@%s" % (caller.split("::", 2)[-1], cfg), "the capacity must reach Channel::bounded unmodified", fn=caller, site=f["loc"])
+            continue
         ok = len(calls) == 1 and all(r.kind == "arg" and not r.proj for r in roots(b, calls[0]["args"][0]))
         ctx.require(ok, "R12.2", "capacity:%s@%s" % (caller.split("::", 2)[-1], cfg), "the capacity must reach Channel::bounded unmodified", fn=caller, site=f["loc"])
     # R12.3 API -> path
